@@ -41,6 +41,8 @@ HEADLINE_TO_STAGE = [
     ("Failed to translate the parsed symbol table", "intermediate.translate"),
 ]
 
+TOO_DEEP_HEADLINE = "Failed to understand the meta-model"
+
 NEAR_MISS_PATTERNS = [
     "^*$", "{", "a{", "a{2", "a{2,1}", "a{,}", "a{ 1 }", "[^\\U0001F600]", "[--a]", "[a-b-c]", "a{\u00b2}", "[]", "[^]", "[\\^-a]",
     "(", ")", "(a", "a)", "a|", "|", "a**", "a+*", "?", "+", "\\", "a\\", "[a", "[a-", "[z-a]", "\\x4", "\\u12", "\\U0001",
@@ -173,19 +175,27 @@ def cli(path: pathlib.Path, scratch: pathlib.Path) -> Dict[str, Any]:
 
 
 def stages_first_failing(text: str) -> Optional[str]:
+    """The first stage (run separately from load_model) which fails; ``overflow:<stage>`` if it exhausts the recursion limit."""
     from aas_core_codegen import intermediate, parse
 
-    atok, exc = parse.source_to_atok(source=text)
-    if exc:
-        return "parse.source_to_atok"
-    if parse.check_expected_imports(atok=atok):
-        return "parse.check_expected_imports"
-    pst, error = parse.atok_to_symbol_table(atok=atok)
-    if error is not None:
-        return "parse.atok_to_symbol_table"
-    _, error = intermediate.translate(parsed_symbol_table=pst, atok=atok)
-    if error is not None:
-        return "intermediate.translate"
+    stage = "parse.source_to_atok"
+    try:
+        atok, exc = parse.source_to_atok(source=text)
+        if exc:
+            return stage
+        stage = "parse.check_expected_imports"
+        if parse.check_expected_imports(atok=atok):
+            return stage
+        stage = "parse.atok_to_symbol_table"
+        pst, error = parse.atok_to_symbol_table(atok=atok)
+        if error is not None:
+            return stage
+        stage = "intermediate.translate"
+        _, error = intermediate.translate(parsed_symbol_table=pst, atok=atok)
+        if error is not None:
+            return stage
+    except RecursionError:
+        return "overflow:" + stage
     return None
 
 
@@ -697,12 +707,24 @@ def _explore(ctx: Ctx, with_model: bool) -> None:
             if r["kind"] == "done" and r["rc"] != 1:
                 ctx.fail(what, f"load_model rejects the model but the CLI exits {r['rc']}", "C01:cli-status")
         # correspondence: stage composition on fixtures + targeted inputs
-        if with_model and kind in ("fixture", "corpus", "invariant", "raw") and isinstance(text, str) and res["kind"] != "crash":
+        if with_model and kind in ("fixture", "corpus", "invariant", "raw", "deep") and isinstance(text, str) and (
+            res["kind"] != "crash" or res["exc"] == "RecursionError"
+        ):
             try:
                 ff = stages_first_failing(text)
             except BaseException:  # noqa
                 ff = "crash"
-            if ff != "crash":
+            if ff is not None and ff.startswith("overflow:"):
+                # a stage exhausts the recursion limit: Model.FrontEnd.loadG over the regenerated guard list says whether
+                # load_model turns that into the report "too deeply nested" or lets the RecursionError escape
+                ctx.hit("deep:" + ff)
+                reqs.append(f"loadg - {ff.split(':', 1)[1]}")
+                if res["kind"] == "crash":
+                    got = "crash"
+                else:
+                    got = "error too-deep" if res.get("msg", "").startswith(TOO_DEEP_HEADLINE) else "error ?"
+                req_meta.append((what, got))
+            elif ff != "crash" and res["kind"] != "crash":
                 reqs.append(f"load {ff or '-'}")
                 got = "table" if res["kind"] == "table" else "error " + next((st for h, st in HEADLINE_TO_STAGE if res.get("msg", "").startswith(h)), "?")
                 req_meta.append((what, got))
